@@ -69,7 +69,7 @@ def run(tier, seed):
     ck.proof = lib.proof_step('props/C07.v', CONE)
     ck.broken += ck.proof['broken']
     if not ck.proof['driver_ok']:
-        return ck.finish(rule='driver unavailable')
+        ck.notes['driver'] = 'unavailable: model-side runs skipped, searching with the implementation-side oracles only'
     pats, _ = t1_regex.collect()
     drv = lib.Driver()
     # ---- E3: the translated regexes (T1 + Regex.ends) agree with the live `re` objects
